@@ -523,3 +523,47 @@ func ruleIdx7(c *Ctx) []*Ob {
 	}
 	return o.list
 }
+
+func init() {
+	register(&Rule{
+		ID: "IDX-8",
+		Doc: "The index knows how many entries the segment has: the srcKeyCount handed to newSegmentKeysIndex by segment.buildIndex is the segment's Len() (kvs/2), not a total of some kinds of " +
+			"operations (the persisted TotOpsSet + TotOpsDel do not count Merge entries). lookup uses it as the right end of the window beyond the last indexed key (IDX-5).",
+		Props: []string{"C14"},
+		Floor: 1,
+		Run:   ruleIdx8,
+	})
+}
+
+func ruleIdx8(c *Ctx) []*Ob {
+	o := newObs(c, "IDX-8")
+	f := c.Fn("(*segment).buildIndex")
+	fn := c.fname(f)
+	nsi := c.Fn("newSegmentKeysIndex")
+	lenFn := c.Fn("(*segment).Len")
+	n := 0
+	for _, k := range callsToFn(f, nsi) {
+		if len(k.Call.Args) < 2 {
+			continue
+		}
+		n++
+		ok, cnt := true, 0
+		for _, og := range origins(k.Call.Args[1]) {
+			cnt++
+			call, isC := og.(*ssa.Call)
+			if !isC || call.Call.StaticCallee() != lenFn {
+				ok = false
+			}
+		}
+		ok = ok && cnt > 0
+		why := "srcKeyCount is the segment's Len()"
+		if !ok {
+			why = "srcKeyCount is " + accessPath(k.Call.Args[1]) + ", not the segment's Len(): when it is smaller than the real number of entries (merge operations are not in the persisted totals) the window for probes beyond the last indexed key stops short of the segment's tail"
+		}
+		o.add(fn, "newSegmentKeysIndex srcKeyCount", c.instrPos(k), ok, why)
+	}
+	if n == 0 {
+		o.add(fn, "newSegmentKeysIndex", c.pos(f.Pos()), false, "anchor lost")
+	}
+	return o.list
+}
